@@ -201,7 +201,7 @@ def _():
 KEEP_CONN = ['_buffer', 'g_dispatched', 'g_firing', 'id', 'IDLE', 'CONNECTING', 'CONNECTED', 'protocol', 'factory', 'addr', 'transport',
              '_pingReq', 'queuePublishTx', 'windowPublish', 'windowPubRelease', 'windowPubRx', 'windowSubscribe',
              'windowUnsubscribe', '_window', '_initialT', '_bandwith', '_factor', '_version', '_cleanStart',
-             'onPublish', 'onDisconnection', 'onMqttConnectionMade', 'pdu', 'tr_aborts', 'tr_closes']
+             'onPublish', 'onDisconnection', 'onMqttConnectionMade', 'pdu', 'tr_aborts', 'tr_closes', 'resultCode', 'session']
 
 
 @contract('mqtt.client.base.MQTTBaseProtocol.handleCONNACK', props=['C04', 'C15', 'C12', 'C11', 'C16', 'C13', 'C18'], classes=PROFILES)
